@@ -140,6 +140,12 @@ type pkgTr struct {
 	skipped   []string
 	structs   map[string]*ast.StructType
 	fieldType map[string]string
+	globals   []string
+}
+
+// identIn: t mentions the identifier id as a whole word
+func identIn(t, id string) bool {
+	return regexp.MustCompile(`(^|[^A-Za-z0-9_])` + regexp.QuoteMeta(id) + `($|[^A-Za-z0-9_])`).MatchString(t)
 }
 
 var forbiddenWords = regexp.MustCompile(`(?i)admit|axiom|parameter|conjecture|abort`)
@@ -235,6 +241,16 @@ func loadPkg(dir, module, objType string, nested []string) (*pkgTr, error) {
 			switch d := d.(type) {
 			case *ast.GenDecl:
 				for _, s := range d.Specs {
+					if vs, ok := s.(*ast.ValueSpec); ok && d.Tok == token.VAR {
+						if t := typeText(p.fset, vs.Type); t != "" && identIn(t, objType) {
+							p.globals = append(p.globals, p.position(vs)+": package-level variable of the object type")
+						}
+						for _, v := range vs.Values {
+							if identIn(typeText(p.fset, v), objType) {
+								p.globals = append(p.globals, p.position(vs)+": package-level variable initialised with the object type")
+							}
+						}
+					}
 					ts, ok := s.(*ast.TypeSpec)
 					if !ok {
 						continue
@@ -284,6 +300,23 @@ func loadPkg(dir, module, objType string, nested []string) (*pkgTr, error) {
 				p.order = append(p.order, fd.key)
 			}
 		}
+	}
+	// the object reachable through a package-level variable or a field of another struct would escape
+	for _, n := range names {
+		_ = n
+	}
+	for name, st := range p.structs {
+		if name == objType {
+			continue
+		}
+		for _, fl := range st.Fields.List {
+			if strings.Contains(typeText(p.fset, fl.Type), objType) && identIn(typeText(p.fset, fl.Type), objType) {
+				p.unknowns = append(p.unknowns, p.position(fl)+": field of struct "+name+" holds the object type")
+			}
+		}
+	}
+	for _, gv := range p.globals {
+		p.unknowns = append(p.unknowns, gv)
 	}
 	// a nested object (own mutex) contributes its fields as a.b
 	var fields []string
@@ -727,6 +760,9 @@ func (c *fctx) selectorCall(x *ast.CallExpr, fun *ast.SelectorExpr) *sk {
 		return args
 	}
 	// --- methods of other values
+	if ts := c.resultTypes(fun.X); len(ts) > 0 && isObjTypeText(ts[0], c.p.objType) {
+		return c.p.unknown(x, "method call on an object returned by a call")
+	}
 	switch m {
 	case "Lock", "Unlock", "RLock", "RUnlock", "TryLock", "TryRLock":
 		return c.p.unknown(x, "lock operation on a mutex that is not the object's")
@@ -775,6 +811,27 @@ func (c *fctx) selectorCall(x *ast.CallExpr, fun *ast.SelectorExpr) *sk {
 	return skSeq(recv, args)
 }
 
+func (c *fctx) bareObj(e ast.Expr) bool {
+	id, ok := e.(*ast.Ident)
+	return ok && c.isObj(id.Name)
+}
+
+// exprNoObj: like expr, but a bare object identifier is fine here (returned, aliased, compared)
+func (c *fctx) exprNoObj(e ast.Expr) *sk {
+	if c.bareObj(e) {
+		return skSkip()
+	}
+	return c.expr(e)
+}
+
+func (c *fctx) exprsNoObj(es []ast.Expr) *sk {
+	var out []*sk
+	for _, e := range es {
+		out = append(out, c.exprNoObj(e))
+	}
+	return skSeq(out...)
+}
+
 func (c *fctx) isLocal(name string) bool {
 	return c.lookup(name) != nil
 }
@@ -783,7 +840,13 @@ func (c *fctx) expr(e ast.Expr) *sk {
 	switch x := e.(type) {
 	case nil:
 		return skSkip()
-	case *ast.BasicLit, *ast.Ident:
+	case *ast.BasicLit:
+		return skSkip()
+	case *ast.Ident:
+		if c.isObj(x.Name) {
+			// the object itself used as a value (argument, element, copy ...): it escapes the analysis
+			return c.p.unknown(x, "object used as a value")
+		}
 		return skSkip()
 	case *ast.ParenExpr:
 		return c.expr(x.X)
@@ -809,6 +872,9 @@ func (c *fctx) expr(e ast.Expr) *sk {
 		}
 		return c.expr(x.X)
 	case *ast.BinaryExpr:
+		if (x.Op == token.EQL || x.Op == token.NEQ) && (c.bareObj(x.X) || c.bareObj(x.Y)) {
+			return skSeq(c.exprNoObj(x.X), c.exprNoObj(x.Y)) // x == nil
+		}
 		if x.Op == token.LAND || x.Op == token.LOR {
 			return skSeq(c.expr(x.X), skChoice(c.expr(x.Y), skSkip()))
 		}
@@ -988,7 +1054,7 @@ func (c *fctx) stmt(s ast.Stmt) *sk {
 		if hasFuncLit(x.Rhs) {
 			return c.p.unknown(x, "closure stored in a variable")
 		}
-		r := c.exprs(x.Rhs)
+		r := c.exprsNoObj(x.Rhs) // "a := obj" is an alias, tracked by bind
 		var ls []*sk
 		for _, l := range x.Lhs {
 			ls = append(ls, c.lhs(l))
@@ -1010,7 +1076,7 @@ func (c *fctx) stmt(s ast.Stmt) *sk {
 				out = append(out, c.p.unknown(x, "closure stored in a variable"))
 				continue
 			}
-			out = append(out, c.exprs(vs.Values))
+			out = append(out, c.exprsNoObj(vs.Values))
 			for i, n := range vs.Names {
 				t := typeText(c.p.fset, vs.Type)
 				if t == "" && i < len(vs.Values) && len(vs.Values) == len(vs.Names) {
@@ -1021,7 +1087,7 @@ func (c *fctx) stmt(s ast.Stmt) *sk {
 		}
 		return skSeq(out...)
 	case *ast.ReturnStmt:
-		return skSeq(c.exprs(x.Results), c.at(x, &sk{op: "Return"}))
+		return skSeq(c.exprsNoObj(x.Results), c.at(x, &sk{op: "Return"}))
 	case *ast.IfStmt:
 		init := c.stmt(x.Init)
 		cond := c.expr(x.Cond)
@@ -1309,11 +1375,7 @@ func (s *sk) emit(sb *strings.Builder, ind string) {
 	case "Skip", "Return", "Break", "Continue", "Panic":
 		sb.WriteString(ind + s.op + cm)
 	case "NetIO":
-		c := s.pos
-		if s.arg != "" {
-			c = s.arg + " " + s.pos
-		}
-		sb.WriteString(ind + "NetIO (* " + strings.ReplaceAll(c, "*)", "* )") + " *)")
+		sb.WriteString(ind + "(NetIO " + coqString(s.arg) + ")" + cm)
 	case "Lock", "Unlock", "DeferUnlock", "Read", "Write", "Call", "BlockingRead", "SetDeadline":
 		sb.WriteString(ind + "(" + s.op + " " + coqString(s.arg) + ")" + cm)
 	case "Unknown":
